@@ -47,6 +47,7 @@ func Variadic(f *Func)            { f.Variadic = true }
 func WithCallback(f *Func)        { f.Callback = true }
 func WithInfo(f *Func)            { f.Info = true }
 func OptsReversed(f *Func)        { f.OptsRev = true }
+func SameValues(f *Func)          { f.SameVals = true }
 func CustomErr(f *Func)           { f.Err, f.ErrCustom = true, true }
 func LocationOf(decl string) func(*Func) {
 	return func(f *Func) { f.LocPC = decl }
